@@ -3,6 +3,8 @@ package jschema
 import (
 	stdBytes "bytes"
 	"fmt"
+	"sort"
+	"strings"
 
 	"github.com/jsightapi/jsight-schema-go-library/bytes"
 	"github.com/jsightapi/jsight-schema-go-library/errors"
@@ -22,7 +24,7 @@ type exampleBuilder struct {
 	// recursion.
 	// Infinity recursion can't happen here 'cause we check it before building
 	// example, but optional recursion can be there.
-	processedTypes map[string]int
+	processedTypes map[string]*int
 
 	// shown counts, for each optional property and each array item of the schema,
 	// how many times the example contains it. processedTypes limits how often
@@ -37,6 +39,30 @@ type exampleBuilder struct {
 	// (a required property meets the recursion cut-off) is given up as a whole:
 	// the nearest of these places leaves it out.
 	absorbers int
+
+	// failed holds, for each type, the states in which it is known to have no
+	// example. Without it an alternative which meets the recursion cut-off far
+	// below is tried again by every list of alternatives on the way up, each
+	// time from the start: 2^n times for n lists, one below the other.
+	failed map[string][]*exampleFailures
+
+	// asked is the log of the types asked for an example, an entry is a type or
+	// a list of types separated by spaces (a name has none): what was asked
+	// since an attempt began is what its outcome may depend on. spent is the
+	// number of times canShow has changed a counter.
+	asked []string
+	spent int
+}
+
+// exampleFailures are states in which a type has no example, the ones whose
+// attempts asked for the same types (sorted; id is the list of them separated
+// by spaces, processed are their counters in processedTypes): no other type
+// has a part in the outcome. Only an attempt which left the counters of canShow
+// as they were is remembered: not to repeat it changes nothing.
+type exampleFailures struct {
+	id        string
+	processed []*int
+	states    map[string]struct{}
 }
 
 // exampleRepeatLimit is how many times one example contains the same optional
@@ -48,8 +74,9 @@ const exampleRepeatLimit = 100
 func newExampleBuilder(types map[string]internalSchema.Type) *exampleBuilder {
 	return &exampleBuilder{
 		types:          types,
-		processedTypes: map[string]int{},
+		processedTypes: map[string]*int{},
 		shown:          map[internalSchema.Node]int{},
+		failed:         map[string][]*exampleFailures{},
 	}
 }
 
@@ -64,6 +91,7 @@ func (b *exampleBuilder) canShow(node internalSchema.Node) bool {
 		return false
 	}
 	b.shown[node]++
+	b.spent++
 	return true
 }
 
@@ -335,21 +363,101 @@ func (b *exampleBuilder) buildExampleForMixedValueNode(node *internalSchema.Mixe
 }
 
 func (b *exampleBuilder) buildExampleForUserType(typeName string) ([]byte, error) {
-	if cnt := b.processedTypes[typeName]; cnt > 1 {
+	b.asked = append(b.asked, typeName)
+	cnt := b.processed(typeName)
+	if *cnt > 1 {
 		// Do not process already processed type more than twice.
 		return nil, nil
 	}
 
-	b.processedTypes[typeName]++
-	defer func() {
-		b.processedTypes[typeName]--
-	}()
+	if b.isKnownToFail(typeName) {
+		return nil, nil
+	}
+	begin, spent := len(b.asked)-1, b.spent
 
 	t, ok := b.types[typeName]
 	if !ok {
 		return nil, errors.Format(errors.ErrTypeNotFound, typeName)
 	}
-	return b.Build(t.Schema().RootNode())
+
+	*cnt++
+	ex, err := b.Build(t.Schema().RootNode())
+	*cnt--
+
+	if ex == nil && err == nil && b.spent == spent {
+		// The state is the one the attempt began in.
+		b.rememberFailure(typeName, b.asked[begin:])
+	}
+	return ex, err
+}
+
+// processed returns the counter of the type in processedTypes.
+func (b *exampleBuilder) processed(typeName string) *int {
+	cnt, ok := b.processedTypes[typeName]
+	if !ok {
+		cnt = new(int)
+		b.processedTypes[typeName] = cnt
+	}
+	return cnt
+}
+
+// rememberFailure puts down that the type has no example in the state the
+// builder is in, asked being what the attempt asked for.
+func (b *exampleBuilder) rememberFailure(typeName string, asked []string) {
+	seen := map[string]struct{}{}
+	var types []string
+	for _, entry := range asked {
+		for _, name := range strings.Split(entry, " ") {
+			if _, ok := seen[name]; !ok {
+				seen[name] = struct{}{}
+				types = append(types, name)
+			}
+		}
+	}
+	sort.Strings(types)
+
+	id := strings.Join(types, " ")
+	for _, ff := range b.failed[typeName] {
+		if ff.id == id {
+			ff.states[b.stateOf(ff.processed)] = struct{}{}
+			return
+		}
+	}
+
+	ff := &exampleFailures{id: id, states: map[string]struct{}{}}
+	for _, name := range types {
+		ff.processed = append(ff.processed, b.processed(name))
+	}
+	ff.states[b.stateOf(ff.processed)] = struct{}{}
+	b.failed[typeName] = append(b.failed[typeName], ff)
+}
+
+// isKnownToFail reports whether the type has failed to give an example in the
+// state the builder is in. The outcome depends on what the remembered attempt
+// depended on: these types are put down as asked.
+func (b *exampleBuilder) isKnownToFail(typeName string) bool {
+	for _, ff := range b.failed[typeName] {
+		if _, ok := ff.states[b.stateOf(ff.processed)]; ok {
+			b.asked = append(b.asked, ff.id)
+			return true
+		}
+	}
+	return false
+}
+
+// stateOf returns the state of the builder as far as it concerns an attempt
+// which asks for the types the given counters belong to: whether a place above
+// may do without the value, and how many times each of the types is being
+// processed.
+func (b *exampleBuilder) stateOf(processed []*int) string {
+	state := make([]byte, 0, len(processed)+1)
+	if b.absorbers > 0 {
+		state = append(state, '+')
+	}
+	for _, cnt := range processed {
+		state = append(state, byte('0'+*cnt))
+	}
+	return string(state)
 }
 
 func buildExample(node internalSchema.Node, types map[string]internalSchema.Type) ([]byte, error) {
